@@ -160,41 +160,92 @@ fn c16_attribute_scan() {
     run_and_check(t, 2, &f, 0);
 }
 
-/// C16, attribute scan with a single attribute (the common shapes: only a comment, only
-/// `active`).
+/// C16, attribute scan with a single attribute, the attribute cases walked by a concrete loop
+/// (a *symbolic* comment text makes `trim_matches` / `trim` / `strip_prefix` iterate over an
+/// `ite` of strings and the harness needs 14 minutes; enumerated it needs a fraction): no
+/// attribute, jcmd:active=false, jcmd:active=true, jcmd:comment with each of the 4 texts
+/// (decorated annotation, plain annotation, unrelated comment, unparsable expression),
+/// xmlns:jcmd, and a bgpfu-looking comment in a foreign namespace.
 #[kani::proof]
 #[kani::unwind(27)]
 fn c16_attribute_scan_single() {
     tape::set_tables(&NAMES, &TEXTS, &ATTRS);
     rpsl::model::set_pool(&POOL);
-    let mut t = Tape::EMPTY;
-    let f = any_attrs::<1>(&mut t);
-    push_body(&mut t, 0);
-    kani::cover!(f.inactive, "statement marked inactive");
-    kani::cover!(f.annotation == Some(1), "undecorated annotation");
-    kani::cover!(f.n_comment == 1 && f.annotation.is_none(), "comment that is not a usable annotation");
-    run_and_check(t, 1, &f, 0);
+    // (number of attributes, kind, value, inactive, annotation)
+    const CASES: [(u8, u8, u8, bool, Option<u8>); 9] = [
+        (0, 0, 0, false, None),
+        (1, an::ACTIVE, tx::FALSE, true, None),
+        (1, an::ACTIVE, tx::TRUE, false, None),
+        (1, an::COMMENT, tx::ANNOT_DECORATED, false, Some(0)),
+        (1, an::COMMENT, tx::ANNOT_PLAIN, false, Some(1)),
+        (1, an::COMMENT, tx::UNRELATED, false, None),
+        (1, an::COMMENT, tx::ANNOT_BAD, false, None),
+        (1, an::XMLNS_JCMD, tx::JCMD_URI, false, None),
+        (1, an::OTHER_COMMENT, tx::ANNOT_DECORATED, false, None),
+    ];
+    let mut i = 0;
+    while i < 9 {
+        let (nattr, kind, val, inactive, annotation) = CASES[i];
+        let mut t = Tape::EMPTY;
+        t.attrs[0] = AttrCell::new(kind, val);
+        let f = AttrFacts { inactive, annotation, n_comment: (kind == an::COMMENT && nattr == 1) as u8 };
+        push_body_concrete(&mut t, 0);
+        run_and_check(t, nattr, &f, 0);
+        i += 1;
+    }
+    kani::cover!(true, "all attribute cases walked");
 }
 
 /// C16, body scan: an active statement annotated with a valid expression and each of the four
-/// bodies (name + reject, name only, reject only, name + accept).
+/// bodies (name + reject, name only, reject only, name + accept), walked by a concrete loop.
 #[kani::proof]
 #[kani::unwind(27)]
 fn c16_body_scan() {
     tape::set_tables(&NAMES, &TEXTS, &ATTRS);
     rpsl::model::set_pool(&POOL);
-    // the four bodies are walked by a concrete loop (a tape whose *elements* are symbolic costs
-    // minutes per reader iteration; see DESIGN.md, cost rules); the annotation text is symbolic
     let mut body = 0u8;
     while body < 4 {
-        let annot: bool = kani::any();
         let mut t = Tape::EMPTY;
-        t.attrs[0] = AttrCell::new(an::COMMENT, if annot { tx::ANNOT_DECORATED } else { tx::ANNOT_PLAIN });
-        let f = AttrFacts { inactive: false, annotation: Some(if annot { 0 } else { 1 }), n_comment: 1 };
+        t.attrs[0] = AttrCell::new(an::COMMENT, tx::ANNOT_DECORATED);
+        let f = AttrFacts { inactive: false, annotation: Some(0), n_comment: 1 };
         push_body_concrete(&mut t, body);
         run_and_check(t, 1, &f, body);
         body += 1;
     }
+    kani::cover!(true, "all bodies walked");
+}
+
+/// C16, attribute scan with two attributes in either order (what Junos emits for a statement
+/// that is both annotated and (in)active, including its duplicated `xmlns:jcmd`): 8 cases
+/// walked by a concrete loop.
+#[kani::proof]
+#[kani::unwind(27)]
+fn c16_attribute_pairs() {
+    tape::set_tables(&NAMES, &TEXTS, &ATTRS);
+    rpsl::model::set_pool(&POOL);
+    // ((kind, value), (kind, value), inactive, annotation)
+    const CASES: [((u8, u8), (u8, u8), bool, Option<u8>); 8] = [
+        ((an::ACTIVE, tx::FALSE), (an::COMMENT, tx::ANNOT_DECORATED), true, Some(0)),
+        ((an::COMMENT, tx::ANNOT_DECORATED), (an::ACTIVE, tx::FALSE), true, Some(0)),
+        ((an::ACTIVE, tx::TRUE), (an::COMMENT, tx::ANNOT_PLAIN), false, Some(1)),
+        ((an::COMMENT, tx::ANNOT_PLAIN), (an::ACTIVE, tx::TRUE), false, Some(1)),
+        ((an::XMLNS_JCMD, tx::JCMD_URI), (an::COMMENT, tx::ANNOT_DECORATED), false, Some(0)),
+        ((an::XMLNS_JCMD, tx::JCMD_URI), (an::XMLNS_JCMD, tx::JCMD_URI), false, None),
+        ((an::OTHER_COMMENT, tx::ANNOT_DECORATED), (an::COMMENT, tx::UNRELATED), false, None),
+        ((an::COMMENT, tx::ANNOT_BAD), (an::ACTIVE, tx::TRUE), false, None),
+    ];
+    let mut i = 0;
+    while i < 8 {
+        let (a0, a1, inactive, annotation) = CASES[i];
+        let mut t = Tape::EMPTY;
+        t.attrs[0] = AttrCell::new(a0.0, a0.1);
+        t.attrs[1] = AttrCell::new(a1.0, a1.1);
+        let f = AttrFacts { inactive, annotation, n_comment: 1 };
+        push_body_concrete(&mut t, 0);
+        run_and_check(t, 2, &f, 0);
+        i += 1;
+    }
+    kani::cover!(true, "all attribute pairs walked");
 }
 
 /// Like `push_body`, for a concrete `body` (plain pushes, no windows).
